@@ -128,11 +128,12 @@ class Device(object):
                 a.default[:] = list(vals)
 
     # -- one request frame -> (outcome, reply_bytes|None)
-    def frame_parse(self, frame):
-        """Parse exactly one complete frame with enip_machine the way enip_srv_tcp does; returns data."""
+    def frame_parse(self, frame, machine=None):
+        """Parse exactly one complete frame with enip_machine the way enip_srv_tcp does; returns data.
+        machine: a per-connection enip_machine (the real server has one per connection); default: a shared one."""
         data = self.cpppo.dotdict()
         source = self.cpppo.rememberable(bytes(frame))
-        with self.machine as machine:
+        with (machine or self.machine) as machine:
             with contextlib.closing(machine.run(path='request', source=source, data=data)) as engine:
                 waiting = False
                 for mch, sta in engine:
@@ -143,7 +144,7 @@ class Device(object):
                 raise Incomplete('frame incomplete after %d bytes' % source.sent)
         return data, source
 
-    def process(self, addr, frame):
+    def process(self, addr, frame, machine=None):
         """-> ('reply', bytes) | ('closed', None) | ('error', exc)
 
         'reply'  : a reply frame was produced (session continues unless its encapsulation status != 0)
@@ -152,7 +153,7 @@ class Device(object):
         """
         addr = tuple(addr)
         try:
-            data, source = self.frame_parse(frame)
+            data, source = self.frame_parse(frame, machine)
         except Incomplete:
             raise
         except Exception as exc:
